@@ -645,6 +645,14 @@ func e2() {
 
 func main() {
 	res = report.Init("C10", "model_checking")
+	if report.FreeRun > 0 {
+		explore.FreeRuns = report.FreeRun
+		for _, kind := range []string{"plain", "unified"} {
+			e1b(kind)
+		}
+		res.Add("free_runs", int64(explore.FreeRunsDone))
+		res.Finish()
+	}
 	depthFull, depthSmall := 3, 4
 	if report.Thorough() {
 		depthFull, depthSmall = 4, 5
